@@ -67,4 +67,6 @@ SelectBad ==
 SelectTable == IF SelectBad = {} THEN TRUE ELSE PrintT(<<"SELECTBAD", SelectBad>>) /\ FALSE
 
 ASSUME PrintT(<<"OMS", OmSeqU>>)
+ASSUME PrintT(<<"PROFS", ProfSeqU>>)
+ASSUME PrintT(<<"FILTERS", FOrgU \X FNameU \X FVerU>>)
 =============================================================================
